@@ -221,6 +221,73 @@ def model_correspondence(ctx, RB, rng, boards, where, names):
 LAYOUTS = [('mbr-logical', 'gpt'), ('mbr-primary', 'mbr-logical'), ('gpt', 'mbr-primary')]
 
 
+def config_scenario(ctx, R):
+    """the board table loaded the way nobodd-tftpd loads it: several configuration files (vendor / system / user /
+    conf.d), boards with relative and absolute image paths, explicit and default partitions, ip= ; each board must be
+    served from the image NEXT TO THE FILE THAT DEFINES IT, from the configured partition"""
+    from unittest import mock
+    import nobodd.server as NS
+    rng = ctx.rng
+    with tempfile.TemporaryDirectory() as tmp:
+        tmp = Path(tmp)
+        dirs = {k: tmp / k for k in ('system', 'user', 'confd', 'elsewhere')}
+        for d in dirs.values():
+            (d / 'images').mkdir(parents=True)
+        owners = {}          # serial -> (defining directory tag, volume index 1/2, partition number, ip)
+        specs = {}
+        disks = {}
+        for tag, d in dirs.items():
+            path, vols, nums = make_disk(rng, str(d / 'images'), tag[:3].upper(), rng.choice(['mbr-primary', 'gpt']))
+            os.replace(path, d / 'images' / 'boot.img')          # the SAME relative name everywhere
+            disks[tag] = (vols, nums)
+            specs[tag] = [fatspec.spec_abs(R, v)[1] for v in vols]
+        serials = dict(system=0xaaaa0001, user=0xbbbb0002, confd=0xcccc0003, elsewhere=0xdddd0004)
+        part = {t: rng.choice([0, 1]) for t in serials}
+        (dirs['system'] / 'nobodd.conf').write_text(
+            f"[tftp]\nlisten = 127.0.0.1\nport = 1069\nincludedir = {dirs['confd']}\n\n"
+            f"[board:{serials['system']:x}]\nimage = images/boot.img\npartition = {disks['system'][1][part['system']]}\n")
+        (dirs['user'] / 'nobodd.conf').write_text(
+            f"[board:{serials['user']:x}]\nimage = images/boot.img\npartition = {disks['user'][1][part['user']]}\nip = 10.0.0.5\n\n"
+            f"[board:{serials['elsewhere']:x}]\nimage = {dirs['elsewhere'] / 'images' / 'boot.img'}\npartition = {disks['elsewhere'][1][part['elsewhere']]}\n")
+        (dirs['confd'] / '10-more.conf').write_text(
+            f"[board:{serials['confd']:x}]\nimage = images/boot.img\npartition = {disks['confd'][1][part['confd']]}\n")
+        locations = (tmp / 'vendor' / 'nobodd.conf', dirs['system'] / 'nobodd.conf', dirs['user'] / 'nobodd.conf')
+        with mock.patch.object(NS, 'CONFIG_LOCATIONS', locations), warnings.catch_warnings():
+            warnings.simplefilter('ignore')
+            conf = NS.get_parser().parse_args([])
+        boards = {b.serial: b for b in conf.boards}
+        images = {}
+        for tag, serial in serials.items():
+            ctx.case(('config', tag, part[tag]), True, 'config-' + tag)
+            info = dict(defined_in=tag, serial=f'{serial:x}', boards={f'{k:x}': [str(v.image), v.partition, str(v.ip)] for k, v in boards.items()})
+            if serial not in boards:
+                ctx.violation('boot.config/board-missing', f'board {serial:x} defined in the {tag} configuration is not in the table', info)
+                return
+            want = spec_lookup(specs[tag][part[tag]], ['config.txt'])['data']
+            for addr, allowed in (('10.0.0.5', True), ('10.0.0.6', tag != 'user')):
+                sim = Sim({}, handler_cls=NS.BootHandler, server_attrs=dict(boards=boards, images=images), addr_fn=lambda n, a=addr: (a, 1069))
+                try:
+                    with warnings.catch_warnings():
+                        warnings.simplefilter('ignore')
+                        sent, _ = sim.packet(0, 1, b'\0\1%x/config.txt\0octet\0blksize\x001468\0' % serial, 1000)
+                        got = None
+                        if len(sent) == 1 and sent[0][1][:2] == b'\0\6':
+                            out = sim.packet(sent[0][0], 1, b'\0\4\0\0', 2000)[0]
+                            got = out[0][1][4:] if out and out[0][1][:2] == b'\0\3' else None
+                        elif len(sent) == 1 and sent[0][1][:2] == b'\0\5':
+                            got = ('error', sent[0][1][2] * 256 + sent[0][1][3])
+                finally:
+                    sim.restore()
+                if allowed and got != want:
+                    ctx.violation('boot.config/wrong-image', f'board {serial:x} is defined in {tag}/ with image = '
+                                  f'{"an absolute path" if tag == "elsewhere" else "images/boot.img (relative to that file)"}, partition '
+                                  f'{disks[tag][1][part[tag]]}: a request from {addr} got {str(got)[:60]!r} instead of that volume\'s config.txt', info)
+                    return
+                if not allowed and got != ('error', 2):
+                    ctx.violation('boot.config/ip-not-enforced', f'board {serial:x} has ip = 10.0.0.5 but {addr} got {str(got)[:60]!r}', info)
+                    return
+
+
 def run(ctx, build):
     from nobodd.server import BootHandler
     from nobodd.config import Board
@@ -230,6 +297,10 @@ def run(ctx, build):
     tables = 60 if ctx.thorough else 3
     if ctx.widen:
         tables += 1
+    for _ in range(4 if ctx.thorough else 1):
+        config_scenario(ctx, R)
+        if ctx.violations:
+            return
     for tb in range(tables):
         with tempfile.TemporaryDirectory() as tmp:
             la, lb = LAYOUTS[tb % len(LAYOUTS)]
